@@ -2,7 +2,7 @@
    Model: coq/model/NodeOps.v (step_u/run_u): an undirected edge created by u.connect(v,e) is an outbound
    half (v,e) at u and an inbound half (u,e) at v; Node::iter() yields adj_u h u = outs h u ++ ins h u. *)
 From Gdsl.Model Require Import Spec.
-From Gdsl.Proofs Require Import NodeU Glue.
+From Gdsl.Proofs Require Import NodeU Glue DegreeU.
 
 Theorem c02_history_invariant :
   forall (K V E : Type) (keqb : K -> K -> bool), KeqbSpec keqb ->
@@ -51,12 +51,28 @@ Theorem c02_is_connected :
 Proof. exact is_connected_u_spec. Qed.
 Print Assumptions c02_is_connected.
 
+(* "Degrees count every incident edge once per endpoint (a self-loop twice)", stated against what the OTHER nodes report
+   rather than as the definition of degree(): the degree of u is the number of times all nodes, u included, list an edge
+   to u (listed_to h u = sum over v < size h of |to_ u (adj_u h v)|); an edge u--v is listed once at v, a self-loop is
+   listed twice at u itself (second theorem: the entries of u towards u are exactly twice its outbound self-halves). *)
+Theorem c02_degree_counts_incident_edges :
+  forall (K V E : Type) (h : heap K V E), Mirror h -> Wf h -> forall u : nat,
+    degree_u h u = listed_to h u.
+Proof. exact degree_u_counts_listings. Qed.
+Print Assumptions c02_degree_counts_incident_edges.
+
+Theorem c02_self_loop_counted_twice :
+  forall (K V E : Type) (h : heap K V E), Mirror h -> forall u : nat,
+    length (to_ u (adj_u h u)) = 2 * length (to_ u (outs h u)).
+Proof. exact self_loops_counted_twice. Qed.
+Print Assumptions c02_self_loop_counted_twice.
+
 Example c02_nonvacuous :
   let ops : list (op nat nat nat) :=
     [ONew 5 0; ONew 3 0; OConnect 0 1 10; OConnect 1 0 11; OConnect 0 0 12; ODisconnect 1 5; OTryConnect 1 0 13] in
   NoDup (new_keys ops) /\
   adj_u (fst (run_u Nat.eqb ops)) 0 = [(0, 12); (1, 11); (0, 12)] /\ adj_u (fst (run_u Nat.eqb ops)) 1 = [(0, 11)] /\
-  degree_u (fst (run_u Nat.eqb ops)) 0 = 3 /\
+  degree_u (fst (run_u Nat.eqb ops)) 0 = 3 /\ listed_to (fst (run_u Nat.eqb ops)) 0 = 3 /\
   snd (run_u Nat.eqb ops) = [OkU; OkU; OkU; OkU; OkU; OkE 10; ErrExists].
 Proof.
   cbv zeta. split; [|vm_compute; auto].
